@@ -60,8 +60,9 @@ BATCH = 16     # (Hypothesis starts every batch with the minimal example: small 
 
 WS = "dev/src/root/1/workspace"
 SRCBASE = "dev/src/root/1"
-DIRS = [".", "a", "b", "n", "a/n"]
-USER_KINDS = ["modify", "untracked", "commit", "newbranch", "switch", "detach", "sidebranch"]
+DIRS = [".", "a", "b", "n", "a/n", "a-x", "n2"]      # a-x / n2: SIBLINGS whose names merely start with a / n (append only:
+                                                      # corpus cases refer to directories by index)
+USER_KINDS = ["modify", "untracked", "commit", "newbranch", "switch", "detach", "sidebranch", "review"]
 # -B (checkout only) and --no-audit keep the number of processes per invocation down (process creation dominates the
 # cost of this check); neither option takes part in the checkout/attic/clean logic.  "dev-full" is the plain command.
 LEAN = ["-B", "--no-audit"]
@@ -363,6 +364,24 @@ class Run:
             rc, _, err = g("checkout", "-q", branch)
             if rc != 0:
                 raise RuntimeError("harness: checkout back failed: " + err)
+        elif kind == "review":
+            # a local commit on the branch the recipe configures, then off to a new branch at an upstream tip
+            # (`git checkout -b review origin/master`): HEAD is pushed, the configured branch is not
+            cfg = (self.sim.by_dir().get(d) or {}).get("res", {}).get("branch")
+            if not cfg or cfg not in srcuni.local_branches(wd):
+                self.labels.add("user-skipped:review-without-configured-branch"); return
+            if branch != cfg:
+                if branch is None and inode in self.detached_commit:
+                    self.labels.add("user-skipped:switch-would-orphan-own-commit"); return
+                rc, _, err = g("checkout", "-q", cfg)
+                if rc != 0:
+                    self.labels.add("user-skipped:switch-refused-by-git"); return
+            commit("commit-on-configured-branch")
+            rb = srcuni.remote_branches(wd)
+            if rb:
+                rc, _, err = g("checkout", "-q", "-b", "rv%d" % n, "origin/" + rb[op[3] % len(rb)])
+                if rc != 0:
+                    self.labels.add("user:review-branch-refused-by-git")
         elif kind == "switch":
             if branch is None and inode in self.detached_commit:
                 self.labels.add("user-skipped:switch-would-orphan-own-commit"); return
@@ -608,7 +627,7 @@ def run_case(ctx, case, confirm=False):
 I6 = st.integers(0, 5)
 ref_st = st.tuples(st.integers(0, 4), st.integers(0, 3), I6).map(list)
 entry_st = st.fixed_dictionaries({"t": st.sampled_from(["git", "git", "git", "git", "url", "imp"]), "src": I6, "ref": ref_st,
-                                  "dir": st.sampled_from([0, 0, 1, 1, 2, 3, 4]), "opt": st.integers(0, 7)})
+                                  "dir": st.sampled_from([0, 0, 0, 1, 1, 1, 2, 2, 3, 3, 4, 4, 5, 6]), "opt": st.integers(0, 7)})
 up_st = st.one_of(
     st.tuples(st.just("u_commit"), I6, st.integers(0, 3), st.integers(0, 3), I6),
     st.tuples(st.just("u_commit"), I6, st.just(0), st.integers(0, 3), I6),
@@ -620,7 +639,7 @@ up_st = st.one_of(
 ).map(list)
 edit_st = st.one_of(
     st.tuples(st.just("e_src"), I6, I6), st.tuples(st.just("e_ref"), I6, ref_st), st.tuples(st.just("e_ref"), I6, ref_st),
-    st.tuples(st.just("e_ref"), I6, ref_st), st.tuples(st.just("e_dir"), I6, st.integers(0, 4)),
+    st.tuples(st.just("e_ref"), I6, ref_st), st.tuples(st.just("e_dir"), I6, st.integers(0, 6)),
     st.tuples(st.just("e_add"), I6, entry_st), st.tuples(st.just("e_del"), I6), st.tuples(st.just("e_swap"), I6),
     st.tuples(st.just("e_refresh"), I6), st.tuples(st.just("e_src"), I6, I6),
     st.tuples(st.just("e_bump"), I6, I6), st.tuples(st.just("e_bump"), I6, I6),
@@ -650,7 +669,7 @@ def clean_scenario_st(draw):
     slot = draw(st.integers(0, 2))
     ops = [["user", kind, slot, draw(I6)] for _ in range(draw(st.sampled_from([1, 1, 2])))]
     e = draw(st.sampled_from(["e_dir", "e_dir", "e_del", "e_src", "e_ref", "e_clear", "none"]))
-    if e == "e_dir": ops.append([e, slot, draw(st.integers(0, 4))])
+    if e == "e_dir": ops.append([e, slot, draw(st.integers(0, 6))])
     elif e == "e_del": ops.append([e, slot])
     elif e == "e_src": ops.append([e, slot, draw(I6)])
     elif e == "e_ref": ops.append([e, slot, draw(ref_st)])
@@ -661,15 +680,64 @@ def clean_scenario_st(draw):
         ops += [["e_clear"], ["bob", "clean-s"]]
     return ops
 
-def case_st(quick):
-    return st.fixed_dictionaries({
-        "pre": st.lists(up_st, max_size=3),
-        "spec": st.tuples(st.sampled_from([1, 1, 1, 2, 2, 3]).flatmap(lambda n: st.lists(entry_st, min_size=n, max_size=n)),
-                          st.integers(0, 7)).map(lambda t: [dict(t[0][0], t="git")] + t[0][1:] if t[1] else t[0]),
-        # (Hypothesis prefers the first alternatives in its early examples: the general form comes first)
-        "history": st.sampled_from([0, 1, 2, 3, 4]).flatmap(lambda k: clean_scenario_st() if k == 4 else
-                   st.lists(round_st(users=k != 3), min_size=2, max_size=3 if quick else 6).map(lambda rs: [o for r in rs for o in r])),
-    })
+@st.composite
+def sibling_history_st(draw):
+    """the first SCM (directory a / n, its sibling a-x / n2 stays) is retired by a recipe edit, then builds"""
+    ops = [draw(user_st) for _ in range(draw(st.sampled_from([0, 0, 1])))]
+    e = draw(st.sampled_from(["e_dir", "e_del", "e_src", "e_src", "e_ref"]))
+    if e == "e_dir": ops.append([e, 0, draw(st.sampled_from([2, 0, 4]))])
+    elif e == "e_del": ops.append([e, 0])
+    elif e == "e_src": ops.append([e, 0, draw(I6)])
+    else: ops.append([e, 0, draw(ref_st)])
+    ops.append(["bob", draw(st.sampled_from(["dev", "dev", "dev-cc", "dev-full"]))])
+    if draw(st.integers(0, 2)) == 0:
+        ops += draw(round_st())
+    return ops
+
+@st.composite
+def pin_history_st(draw):
+    """branch + commit/tag spec: some user state, then the pin moves (upstream publishes, the recipe follows / older pin)"""
+    kinds = ["review", "review", "review", "commit", "modify", "sidebranch", "switch", "untracked"]
+    ops = [["user", draw(st.sampled_from(kinds)), 0, draw(I6)] for _ in range(draw(st.sampled_from([1, 1, 2])))]
+    if draw(st.integers(0, 2)):
+        ops.append(["e_bump", 0, draw(I6)])
+    else:
+        ops.append(["e_ref", 0, [draw(st.sampled_from([3, 4])), 0, draw(I6)]])
+    ops.append(["bob", draw(st.sampled_from(["dev", "dev", "dev-cc", "dev-full"]))])
+    if draw(st.integers(0, 2)) == 0:
+        ops += draw(round_st())
+    return ops
+
+@st.composite
+def case_st(draw, quick=True):
+    pre = draw(st.lists(up_st, max_size=3))
+    n = draw(st.sampled_from([1, 1, 1, 2, 2, 3]))
+    spec = [draw(entry_st) for _ in range(n)]
+    if draw(st.integers(0, 7)):
+        spec[0] = dict(spec[0], t="git")
+    # shapes (Hypothesis prefers the first alternatives in its early examples: the general form comes first)
+    #   0 general  1 no user action (pure convergence)  2 clean scenario  3 prefix-sharing sibling dirs  4 pin change
+    shape = draw(st.sampled_from([0, 0, 0, 1, 2, 2, 3, 4]))
+    general = lambda users: draw(st.lists(round_st(users=users), min_size=2, max_size=3 if quick else 6)
+                                 .map(lambda rs: [o for r in rs for o in r]))
+    if shape == 2:
+        history = draw(clean_scenario_st())
+    elif shape == 3:
+        if n == 1:
+            spec.append(draw(entry_st))
+        a, b = draw(st.sampled_from([(1, 5), (1, 5), (3, 6)]))
+        spec[0] = dict(spec[0], dir=a); spec[1] = dict(spec[1], dir=b)
+        if len(spec) > 2:
+            spec[2] = dict(spec[2], dir=2)          # keeps the retired SCM at index 0 after sorting by depth
+        history = draw(sibling_history_st())
+    elif shape == 4:
+        ref = list(spec[0]["ref"]); ref[0] = draw(st.sampled_from([3, 3, 4]))
+        spec[0] = dict(spec[0], t="git", ref=ref, dir=draw(st.sampled_from([0, 1])))
+        spec = spec[:1]
+        history = draw(pin_history_st())
+    else:
+        history = general(shape != 1)
+    return {"pre": pre, "spec": spec, "history": history}
 
 
 _failed = set()     # cases that raised a violation: Hypothesis replays them, the time guard must not skip them
@@ -704,7 +772,7 @@ def check(ctx, case):
 
 def shard(ctx):
     bobproc.warm()
-    run_hypothesis(ctx, case_st(ctx.quick()), lambda c: check(ctx, c), ctx.n(240, 3000), shrink=False,
+    run_hypothesis(ctx, case_st(quick=ctx.quick()), lambda c: check(ctx, c), ctx.n(240, 3000), shrink=False,
                    minimize=("history", "pre", "spec"))
 
 
